@@ -7,9 +7,6 @@
 //! and after every message the `ZoneUpdate` stream, the errors, the diffs
 //! returned by the commits and the content a fresh reader obtains through
 //! `walk()` are reported for comparison with the specification.
-#[path = "../client.rs"]
-#[allow(dead_code, unused)]
-mod client;
 #[path = "../xfr.rs"]
 mod xfr;
 use domain::base::iana::Class;
